@@ -280,10 +280,13 @@ def search(prop_id, tier, verif_seed, n_runs=None, workers=None, quiet=False):
             new[sig] = ent
 
     replay_paths = []
-    for sig, ent in new.items():
+    max_shrunk = int(os.environ.get("VERIF_SHRINK_SIGNATURES", "4"))
+    for nsig, (sig, ent) in enumerate(new.items()):
         try:
-            tl, res, tried = shrink(prop, ent["tape"], sig,
-                                    budget=int(os.environ.get("VERIF_SHRINK_BUDGET", "1500")))
+            # the earliest few signatures are minimised fully, the others get a
+            # small budget (their replay files are valid, only less minimal)
+            budget = int(os.environ.get("VERIF_SHRINK_BUDGET", "1500")) if nsig < max_shrunk else 60
+            tl, res, tried = shrink(prop, ent["tape"], sig, budget=budget)
         except Exception as exc:  # noqa: BLE001
             harness.append("shrinking %s failed: %r" % (sig, exc))
             continue
